@@ -1,7 +1,7 @@
 """C16 - cw1: CanExecute predicts Execute (sibling agreement of two separately written code paths)."""
 from ..engine import show
 from ..idioms import dispatch, entry_points, loaded_from, walk
-from .cw1common import SENDER, items, match_is_admin
+from .cw1common import SENDER, items, match_is_admin, admin_decisions
 
 ID = "C16"
 RULES = {
@@ -83,21 +83,28 @@ def run(ctx):
         for p in ex:
             if p.is_err():
                 continue
+            adm = admin_decisions(ctx, p, ADMIN)
+            adm_idx = set(i for d in adm for i in d[3])
             elems = set()
-            for c in p.conds:
-                if c[0][0] == "calli" and c[0][1] == "next" and c[1] == "Some":
+            for i, c in enumerate(p.conds):
+                if i not in adm_idx and c[0][0] == "calli" and c[0][1] == "next" and c[1] == "Some":
                     elems.add(("vfield", c[0], "Some", "0"))
             iters = len(elems)
-            has_loop = any(e.kind == "loop_enter" for e in p.effects)
+            msgs = ("vfield", ("param", "msg"), "Execute", "msgs")
+            has_loop = any(e.kind == "loop_enter" and any(y == msgs for v in e.value.values() for y in walk(v)) for e in p.effects)
             if has_loop and iters == 0:
                 continue  # empty message list: not a single-message call
             n_ex += 1
             atoms = set()
-            for c in p.conds:
+            for i, c in enumerate(p.conds):
+                if i in adm_idx:
+                    continue
                 a = atom(c[0], c[1])
                 if drop_atom(a):
                     continue
                 atoms.add((rename(a[0], {SENDER}, elems), a[1]))
+            for who, pol, lst, _ in adm:
+                atoms.add((("IS_ADMIN", rename(lst, {SENDER}, elems), rename(who, {SENDER}, elems) if who is not None else S), pol))
             ex_sets.add(frozenset(atoms))
         # ---- query side: paths returning true
         q_sets = set()
@@ -116,17 +123,27 @@ def run(ctx):
                 continue
             n_q += 1
             callers = {qsender, ("vfield", ("call", "cosmwasm_std::Api::addr_validate", (("field", ("param", "deps"), "api"), qsender)), "Ok", "0")}
+            adm = admin_decisions(ctx, p, ADMIN)
+            adm_idx = set(i for d in adm for i in d[3])
             atoms = set()
-            for c in p.conds:
+            for i, c in enumerate(p.conds):
+                if i in adm_idx:
+                    continue
                 a = atom(c[0], c[1])
                 if drop_atom(a):
                     continue
                 atoms.add((rename(a[0], callers, {qmsg}), a[1]))
+            for who, pol, lst, _ in adm:
+                atoms.add((("IS_ADMIN", rename(lst, callers, {qmsg}), rename(who, callers, {qmsg}) if who is not None else S), pol))
             if B == ("lit", False):
                 continue
             if B != ("lit", True):
                 a = atom(B, True)
-                atoms.add((rename(a[0], callers, {qmsg}), a[1]))
+                m = match_is_admin(ctx, a[0])
+                if m is not None and isinstance(a[1], bool):
+                    atoms.add((("IS_ADMIN", rename(m[0], callers, {qmsg}), rename(m[1], callers, {qmsg})), a[1]))
+                else:
+                    atoms.add((rename(a[0], callers, {qmsg}), a[1]))
             q_sets.add(frozenset(atoms))
         only_ex = ex_sets - q_sets
         only_q = q_sets - ex_sets
